@@ -3,6 +3,8 @@ a failed evaluation stores nothing.  Fault sequences x histories: crash-point en
 invocation of a user callable of a fault-free run of the history."""
 from labrea.exceptions import EvaluationError, KeyNotFoundError
 
+import copy
+
 from .. import gen
 from .. import universe as U
 from ..core import Result
@@ -91,14 +93,43 @@ class C12(HistoryProperty):
 
     def gen_case(self, rng, tier):
         cfg = gen.swarm_cfg(rng, off=("shape_change",), on=("dsclass",))
+        cfg["stateful_callables"] = rng.random() < 0.5  # callback OBJECTS that a failed call leaves dirty
+        if cfg["stateful_callables"]:
+            cfg["callbacks"] = True
         spec = gen.prune(gen.gen_spec(rng, cfg))
         for n in spec["nodes"]:
             if n["k"] == "dataset" and n.get("cache", "default") == "default":
                 n["cache"] = "recording"  # the real MemoryCache code path, with its calls logged
-        ops = gen_history(rng, cfg, spec, n_ops=rng.randint(2, 9))
+        # bare cached(...) nodes are driven directly too: they see the caller's dictionary object itself
+        inner = [n["id"] for n in spec["nodes"] if n["k"] == "cached"]
+        spec["roots"] = list(dict.fromkeys(spec["roots"] + rng.sample(inner, min(len(inner), 2))))
+        dg = U.DictGen(rng, cfg)
+        dg.MUTATIONS = list(dg.MUTATIONS) + ["repeat"] * 3
+        ops = gen_history(rng, cfg, spec, n_ops=rng.randint(2, 9), dictgen=dg)
+        inplace = rng.random() < 0.33
+        if rng.random() < 0.25:
+            # "fail, correct the dictionary in place, retry, come back": one node, dictionaries A B A B on one object
+            node = rng.choice(inner) if inner and rng.random() < 0.7 else rng.choice(spec["roots"])
+            a = dg.fresh()
+            dg.MUTATIONS = ["change", "change", "delete", "add", "sibling"]
+            b, m = dg.mutate(a)
+            # ... B differs from A at a key the node really reads (when there is a plain one)
+            live = sorted(k for k in gen.live_reads(spec, node)[0] if k in U.SCALAR_KEYS + U.SECTION_KEYS + U.DISPATCH_KEYS)
+            if live and rng.random() < 0.8:
+                key = rng.choice(live)
+                b = copy.deepcopy(a)
+                cur = U.lookup(key, a)
+                try:
+                    U.set_path(b, key, rng.choice([v for v in (0, 1, 2, "a", "b") if not (cur[0] and U.crepr_json(cur[1]) == U.crepr_json(v))]))
+                except (TypeError, KeyError, AttributeError):
+                    b, m = dg.mutate(a)
+            ops = [{"op": "evaluate", "node": node, "o": copy.deepcopy(x), "mut": "retry-pattern"} for x in (a, b, a, b)]
+            inplace = True
+        no_retry = inplace and rng.random() < 0.6
         picks = [[rng.random(), rng.choice(EXC)] for _ in range(self.CAP[tier])]
         multi = tier == "thorough" and rng.random() < 0.3
-        return {"cfg": cfg, "spec": spec, "ops": ops, "picks": picks, "multi": multi}
+        # (in a third of the histories the caller keeps ONE dictionary object and corrects it in place after a failure)
+        return {"cfg": cfg, "spec": spec, "ops": ops, "picks": picks, "multi": multi, "inplace": inplace, "no_immediate_retry": no_retry}
 
     # ------------------------------------------------------------------ one faulted run
     def _check_failure(self, res, world, obj, out, i, op, faults_desc):
@@ -179,7 +210,7 @@ class C12(HistoryProperty):
         spec, ops = case["spec"], case["ops"]
         fault_ops = sorted({a[0] for a in faults})
         desc = [list(a) + [x] for a, x in faults.items()]
-        wf = World(spec, faults=dict(faults))
+        wf = World(spec, faults=dict(faults), inplace=bool(case.get("inplace")))
         surfaced_all = True
         failed_ops = []
         outs = {}
@@ -224,6 +255,11 @@ class C12(HistoryProperty):
                     # an EARLIER fault of this run was masked: whatever its fallback path stored (legitimately) now shapes
                     # the outcomes, so the fault-free yardsticks below no longer apply to this run
                     continue
+                if case.get("no_immediate_retry"):
+                    # the caller does NOT repeat the failed call: it goes on (corrects its dictionary, asks something else);
+                    # only the later-outcome comparison below applies to such a run
+                    res.bump("failed_ops_not_retried")
+                    continue
                 # datasets whose own evaluation failed: the sources named along the cause chain
                 failed_ds = self._failed_cache_names(wf, out.exc)
                 # bounded liveness: faults stopped -> the very next evaluation of the same dictionary succeeds/fails as on a fault-free twin
@@ -254,7 +290,7 @@ class C12(HistoryProperty):
                     return
         if surfaced_all and failed_ops:
             # stores nothing: the same history with the failed ops deleted, on a second world
-            ws = World(spec, record=False)
+            ws = World(spec, record=False, inplace=bool(case.get("inplace")))
             for i, op in enumerate(ops):
                 if i in failed_ops:
                     continue
@@ -273,7 +309,7 @@ class C12(HistoryProperty):
         res = Result()
         spec, ops = case["spec"], case["ops"]
         with global_state_guard():
-            w0 = World(spec)
+            w0 = World(spec, inplace=bool(case.get("inplace")))
             out0 = [w0.do(op) for op in ops]
             calls = [(ev[1], ev[2], ev[3], ev[4]) for ev in w0.log.events if ev[0] == "call" and ev[2] != "backend"]
             res.stats["events"] = w0.log.seq
